@@ -523,8 +523,31 @@ func checkUnmarshalers(c *Ctx, r *Run) {
 			}
 			r.Analysed(c.FuncName(fn))
 			key := c.FuncName(fn)
-			fromData := func(v ssa.Value) bool {
-				return dependsOn(v, func(x ssa.Value) bool { return x == ssa.Value(data) })
+			// the input slice itself or a re-slice / conversion of it (not aggregates that merely contain it)
+			var fromData func(v ssa.Value) bool
+			fromData = func(v ssa.Value) bool {
+				for i := 0; i < 20; i++ {
+					switch x := v.(type) {
+					case *ssa.Parameter:
+						return x == data
+					case *ssa.Slice:
+						v = x.X
+					case *ssa.ChangeType:
+						v = x.X
+					case *ssa.Convert:
+						v = x.X
+					case *ssa.Phi:
+						for _, e := range x.Edges {
+							if e != ssa.Value(x) && fromData(e) {
+								return true
+							}
+						}
+						return false
+					default:
+						return false
+					}
+				}
+				return false
 			}
 			// len guards
 			lenGuarded := func(in ssa.Instruction) bool {
